@@ -394,3 +394,26 @@ Theorem C11_checker_completeness_example :
   viol wr false (SSeq SRet w) = false /\ chk wr false (SSeq SRet w) <> [].
 Proof. exact viol_example. Qed.
 Print Assumptions C11_checker_completeness_example.
+
+(* ---- round 7: sequence-level lift of the warm-up theorem.  Once a guard flag is set, NO call in ANY later sequence of calls of
+   the checked cache functions (any of them, in any order, any number) observes it zero or writes a static guarded by it *)
+Theorem C11_statics_warm_stable_under_calls : forall g nz ts nz',
+  nz g = true -> vrun_calls static_entry_points nz ts nz' ->
+  nz' g = true /\ forall t, In t ts -> ~ In (VZero g) t /\ forall n, guard_of n = Some g -> ~ In (VWr n) t.
+Proof. exact (fun g nz ts nz' => warm_stable_under_calls static_entry_points g nz ts nz' statics_ok). Qed.
+Print Assumptions C11_statics_warm_stable_under_calls.
+
+(* one warming call of info()/host() followed by an arbitrary sequence of calls *)
+Theorem C11_statics_warm_call_then_any_calls : forall name s g nz t1 fl1 nz1 ts nz2,
+  In (name, s) static_entry_points -> always_sets g s = true ->
+  vrun nz s t1 fl1 nz1 -> vrun_calls static_entry_points nz1 ts nz2 ->
+  forall t, In t ts -> ~ In (VZero g) t /\ forall n, guard_of n = Some g -> ~ In (VWr n) t.
+Proof. exact (fun name s g nz t1 fl1 nz1 ts nz2 => warm_call_then_any_calls static_entry_points name s g nz t1 fl1 nz1 ts nz2 statics_ok). Qed.
+Print Assumptions C11_statics_warm_call_then_any_calls.
+
+Theorem C11_statics_warm_sequence_satisfiable :
+  exists t1 nz1 ts nz2,
+    vrun (fun _ => false) info_like t1 false nz1 /\ vrun_calls [("f"%string, info_like)] nz1 ts nz2 /\ length ts = 2%nat /\
+    In (VWr "VirtMem::info::vm_info"%string) t1.
+Proof. exact warm_call_then_any_calls_sat. Qed.
+Print Assumptions C11_statics_warm_sequence_satisfiable.
